@@ -323,6 +323,20 @@ def fall_through_world(seed, i):
                         ([{"class": "entry", "kind": "file", "spelling": "abs", "entry": home + b"/plain"}] if len(args) > 1 else []))
 
 
+ZONES = [b"AEST-10AEDT,M10.1.0,M4.1.0/3", b"CET-1CEST,M3.5.0,M10.5.0/3", b"XST-10XDT,M12.1.0,M2.1.0", b"YST8YDT,M6.1.0,M8.1.0",
+         b"EST5EDT,M3.2.0,M11.1.0", b"IST-5:30", b"NZST-12NZDT,M9.5.0,M4.1.0/3", b"UTC0", b"ZST3ZDT,M1.1.0,M7.1.0", b"WST-8WDT,M7.1.0,M12.5.0"]
+
+
+def real_clock_world(seed, i):
+    from ..runner import task_rng
+    from ..worldgen import gen_put_world
+    rng = task_rng("C03clock", seed, i)
+    world = gen_put_world(rng, "single")
+    world["opts"] = dict(world["opts"], realPutClock=True)
+    world["env"] = dict(world["env"], TZ=ZONES[i % len(ZONES)])
+    return world
+
+
 def run(tier, seed):
     ck = Check("C03", tier, seed)
     info = audit("C03")
@@ -352,6 +366,10 @@ def run(tier, seed):
         # .Trash-$uid takes over - and records the location its own way (relative to $topdir)
         absorb(ck, "C03", run_tasks(eval_task, [{"pid": "C03w", "seed": seed, "i": -1, "cfg": cfg, "world": fall_through_world(seed, i)}
                                                   for i in range(12 if tier == "quick" else 120)]), cfg, "Model.Put")
+        # the program's own clock (not the sandbox's): in time zones with daylight-saving rules - some of them on standard
+        # time today, whatever today is - the date written is the local time of the run
+        absorb(ck, "C03", run_tasks(eval_task, [{"pid": "C03w", "seed": seed, "i": -1, "cfg": cfg, "world": real_clock_world(seed, i)}
+                                                  for i in range(10 if tier == "quick" else 60)]), cfg, "Model.Put")
         ck.exhaustive = False
         ck.extra["exhaustive_subdomains"] = ["every byte 1-255 except '/' alone and inside a name",
                                              "ordered pairs of 40 interesting bytes", "64 boundary dates"]
